@@ -2295,7 +2295,11 @@ int32_t tls13EncodeAlert(ssl_t *ssl,
     {
         if (rc == SSL_FULL)
         {
-            *requiredLen = messageSize;
+            /* The record that did not fit also carries the inner content
+               type, padding and the AEAD tag when it is protected:
+               tls13WriteRecordHeader recorded its real size. */
+            *requiredLen = PS_MAX(messageSize, ssl->tls13NextMsgRequiredLen);
+            ssl->tls13NextMsgRequiredLen = 0;
         }
         return rc;
     }
